@@ -14,6 +14,10 @@ use std::sync::OnceLock;
 pub enum Fault {
     None,
     PutFailsOnce { n: u64 },
+    /// `times` consecutive PUT requests from the n-th on fail (3-4 exhaust the SDK's own retries, so nun-db's retry has to act)
+    PutFailsTimes { n: u64, times: u64 },
+    /// one PUT is answered 409 (an error the SDK does not retry by itself)
+    PutFailsOnceNotRetriable { n: u64 },
     PutFailsAlways { n: u64 },
     GetFailsOnce { n: u64 },
 }
@@ -45,6 +49,8 @@ pub fn case_strategy() -> impl Strategy<Value = Case> {
     let fault = prop_oneof![
         6 => Just(Fault::None),
         1 => (1..6u64).prop_map(|n| Fault::PutFailsOnce { n }),
+        1 => (1..6u64, 3..5u64).prop_map(|(n, times)| Fault::PutFailsTimes { n, times }),
+        1 => (1..6u64).prop_map(|n| Fault::PutFailsOnceNotRetriable { n }),
         1 => (1..6u64).prop_map(|n| Fault::PutFailsAlways { n }),
         1 => (1..8u64).prop_map(|n| Fault::GetFailsOnce { n }),
     ];
@@ -56,8 +62,10 @@ pub fn run_case(ctx: &Ctx, case: &Case) -> Outcome {
     stub.reset();
     *stub.faults.lock().unwrap() = match case.fault {
         Fault::None => Faults::default(),
-        Fault::PutFailsOnce { n } => Faults { put_fail: Some((n, false)), get_fail: None },
-        Fault::PutFailsAlways { n } => Faults { put_fail: Some((n, true)), get_fail: None },
+        Fault::PutFailsOnce { n } => Faults { put_fail: Some((n, 1, 500)), get_fail: None },
+        Fault::PutFailsTimes { n, times } => Faults { put_fail: Some((n, times, 500)), get_fail: None },
+        Fault::PutFailsOnceNotRetriable { n } => Faults { put_fail: Some((n, 1, 409)), get_fail: None },
+        Fault::PutFailsAlways { n } => Faults { put_fail: Some((n, u64::MAX, 500)), get_fail: None },
         Fault::GetFailsOnce { n } => Faults { put_fail: None, get_fail: Some(n) },
     };
     let strat = strategy_name();
@@ -119,14 +127,15 @@ pub fn run_case(ctx: &Ctx, case: &Case) -> Outcome {
         for (what, m, d) in results {
             let fault_cls = match case.fault {
                 Fault::None => "no-fault",
-                Fault::PutFailsOnce { .. } if stub.failed_puts.load(Ordering::SeqCst) > 0 => "after-put-failed-once",
+                Fault::PutFailsOnce { .. } | Fault::PutFailsTimes { .. } | Fault::PutFailsOnceNotRetriable { .. } if stub.failed_puts.load(Ordering::SeqCst) > 0 => "after-put-failed-once",
                 Fault::GetFailsOnce { .. } if stub.failed_gets.load(Ordering::SeqCst) > 0 => "after-get-failed-once",
                 _ => "no-fault",
             };
             // (key-history marks are disk-format notions; the fault class matters for lost/changed data only)
             let _ = &m;
             let data_what = ["missing-key", "wrong-value", "wrong-version", "db-missing", "resurrected-key"].contains(&what.as_str());
-            let sig = if data_what { format!("C18|{}|{}|{}", strat, what, fault_cls) } else { format!("C18|{}|{}", strat, what) };
+            // the `s3` strategy has no fault handling at all (no retry, results ignored): its fault class is not part of the signature
+            let sig = if data_what && strat != "s3" && what != "resurrected-key" { format!("C18|{}|{}|{}", strat, what, fault_cls) } else { format!("C18|{}|{}", strat, what) };
             if ctx.is_known(&sig) {
                 *known_hits.entry(sig).or_insert(0) += 1;
                 if what.ends_with("-panic") || data_what {
@@ -149,6 +158,8 @@ pub fn run_case(ctx: &Ctx, case: &Case) -> Outcome {
     out.classes.push(match case.fault {
         Fault::None => "no-fault",
         Fault::PutFailsOnce { .. } => "put-fails-once",
+        Fault::PutFailsTimes { .. } => "put-fails-3-or-4-times-in-a-row",
+        Fault::PutFailsOnceNotRetriable { .. } => "put-fails-once-with-409",
         Fault::PutFailsAlways { .. } => "put-fails-always",
         Fault::GetFailsOnce { .. } => "get-fails-once",
     });
